@@ -304,11 +304,18 @@ where
             // The engine threads are parked for ever: this process cannot continue. The caller
             // is expected to report and exit; leak the host threads by never joining them.
             // (std::thread::scope would join: so we must exit from inside.)
-            crate::run::DEADLOCK_HOOK.with(|h| {
-                if let Some(f) = h.borrow_mut().take() {
-                    f(&end, &census);
+            let hook = crate::run::DEADLOCK_HOOK.with(|h| h.borrow_mut().take());
+            if let Some(rep) = crate::report::global() {
+                match hook {
+                    Some(f) => f(&end, &census, rep),
+                    None => {
+                        let e = end.clone();
+                        let c = census_json(&census);
+                        rep.case(crate::report::Verdict::Inconclusive, None, || serde_json::json!({"error": format!("a job did not return: {e:?}"), "census": c}));
+                    }
                 }
-            });
+                rep.finish_with(Some(crate::report::RESUME_FROM.load(Ordering::SeqCst)));
+            }
             eprintln!("job did not return ({end:?}); exiting shard");
             std::process::exit(3);
         }
@@ -345,7 +352,7 @@ where
     }
 }
 
-type DeadlockHook = Box<dyn FnOnce(&JobEnd, &[ThreadSnap])>;
+type DeadlockHook = Box<dyn FnOnce(&JobEnd, &[ThreadSnap], &mut crate::report::Report)>;
 
 thread_local! {
     /// Called (on the thread that runs `run_job`) right before the shard exits because a job did
@@ -353,7 +360,7 @@ thread_local! {
     pub static DEADLOCK_HOOK: std::cell::RefCell<Option<DeadlockHook>> = const { std::cell::RefCell::new(None) };
 }
 
-pub fn on_no_return(f: impl FnOnce(&JobEnd, &[ThreadSnap]) + 'static) {
+pub fn on_no_return(f: impl FnOnce(&JobEnd, &[ThreadSnap], &mut crate::report::Report) + 'static) {
     DEADLOCK_HOOK.with(|h| *h.borrow_mut() = Some(Box::new(f)));
 }
 
